@@ -109,7 +109,7 @@ def fmt_list(l):
     return ' '.join(map(str, l))
 
 
-def access_tokens(rng, v, start, count, stride, memtok, k, flex, form=None, buf=None, imap=None):
+def access_tokens(rng, v, start, count, stride, memtok, k, flex, form=None, buf=None, imap=None, allow_resized=False):
     """tokens '<varid> <form> <memtype> <buf> <formargs>' for a request; picks a form able to express it"""
     nd = v.nd
     nel = 1
@@ -134,7 +134,7 @@ def access_tokens(rng, v, start, count, stride, memtok, k, flex, form=None, buf=
                 bl = rng.choice([d for d in range(1, nel + 1) if nel % d == 0])
                 cnt = nel // bl
                 # 'r': the same layout handed over as bufcount = cnt instances of a RESIZED contiguous type
-                buf = '%s %d %d %d' % (rng.choice(['v', 'v', 'r']), cnt, bl, bl + rng.below(3))
+                buf = '%s %d %d %d' % (rng.choice(['v', 'v', 'r']) if allow_resized else 'v', cnt, bl, bl + rng.below(3))
             else:
                 buf = 'n'
     else:
